@@ -358,6 +358,7 @@ type BatchOpts struct {
 	WidePct   int // percentage of batches with a wide part (default 6)
 	MinDocs   int
 	DupIDPct  int // percentage of batches with one duplicated id
+	SynPct    int // percentage of synonym documents when the schema has thesauri (default 35)
 }
 
 func (s *Schema) GenBatch(t *rapid.T, label string, o BatchOpts) *spec.BatchSpec {
@@ -381,7 +382,11 @@ func (s *Schema) GenBatch(t *rapid.T, label string, o BatchOpts) *spec.BatchSpec
 	for i := 0; i < n; i++ {
 		dl := fmt.Sprintf("%sd%d", label, i)
 		id := s.NewID(t, dl)
-		if len(s.Thesauri) > 0 && Chance(t, dl+"isSyn", 35) {
+		synPct := o.SynPct
+		if synPct == 0 {
+			synPct = 35
+		}
+		if len(s.Thesauri) > 0 && Chance(t, dl+"isSyn", synPct) {
 			b.Docs = append(b.Docs, s.GenSynDoc(t, dl, id))
 		} else {
 			b.Docs = append(b.Docs, s.GenDoc(t, dl, id))
